@@ -349,6 +349,35 @@ def wrap(stmts):
     return ast.Module(body=list(stmts), type_ignores=[])
 
 
+# the generator kinds, with the classes an instance of each kind is an instance of (non-stationary derives from stationary)
+RAR_KINDS = {"ode": {"DataGeneratorODE"}, "statio": {"CubicMeshPDEStatio"}, "ns": {"CubicMeshPDENonStatio", "CubicMeshPDEStatio"}}
+RAR_DIMS = {"ode": ["t"], "statio": ["x"], "ns": ["t", "x"]}
+
+
+def _isinstance_holds(test, classes):
+    if not (isinstance(test, ast.Call) and ast.unparse(test.func) == "isinstance" and len(test.args) == 2 and ast.unparse(test.args[0]) == "data"):
+        raise Untranslatable("capacity block guarded by " + ast.unparse(test))
+    names = [ast.unparse(e) for e in (test.args[1].elts if isinstance(test.args[1], ast.Tuple) else [test.args[1]])]
+    return any(n in classes for n in names)
+
+
+def _appended(stmts, classes):
+    """expressions appended to check_list for a generator whose classes are `classes` (if / elif / else on isinstance)"""
+    out = []
+    for s in stmts:
+        if isinstance(s, ast.If):
+            out += _appended(s.body if _isinstance_holds(s.test, classes) else s.orelse, classes)
+        elif isinstance(s, ast.Expr) and isinstance(s.value, ast.Call) and ast.unparse(s.value.func) == "check_list.append":
+            out.append(s.value.args[0])
+        elif isinstance(s, ast.Expr) and isinstance(s.value, ast.Constant):
+            continue
+        elif isinstance(s, (ast.Assign, ast.Return)):
+            continue
+        else:
+            raise Untranslatable("statement outside the grammar in _proceed_to_rar: " + ast.unparse(s)[:60])
+    return out
+
+
 @anchor("G_rar", "proceed")
 def _(repo):
     f = find_func(parse(repo, RAR), "_proceed_to_rar")
@@ -357,15 +386,17 @@ def _(repo):
         raise Untranslatable("check_list is not a two-element list")
     out = [f"Definition gen_rar_burnin_ok (start i : Z) : bool := {zexpr(cl.elts[0], RENV)}.",
            f"Definition gen_rar_period_ok (every cnt : Z) : bool := {zexpr(cl.elts[1], RENV)}."]
-    ifs = [s for s in f.body if isinstance(s, ast.If)]
-    if len(ifs) != 2:
-        raise Untranslatable("expected two capacity blocks")
-    want = {"t": "isinstance(data, (DataGeneratorODE, CubicMeshPDENonStatio))", "x": "isinstance(data, (CubicMeshPDEStatio, CubicMeshPDENonStatio))"}
-    for s, d in zip(ifs, ("t", "x")):
-        if ast.unparse(s.test) != want[d]:
-            raise Untranslatable("capacity block guarded by " + ast.unparse(s.test))
-        c = one(calls_to(wrap(s.body), "check_list.append"), "append")
-        out.append(f"Definition gen_rar_capacity_ok_{d} (sel zeros : Z) : bool := {zexpr(c.args[0], RENV)}.")
+    body = [s for s in f.body if not (isinstance(s, ast.Assign) and ast.unparse(s.targets[0]) == "check_list")]
+    for kind, classes in RAR_KINDS.items():
+        checks = _appended(body, classes)
+        for d in RAR_DIMS[kind]:
+            arr = {"t": "data.p_times", "x": "data.p_omega"}[d]
+            mine = [c for c in checks if arr in ast.unparse(c)]
+            term = " && ".join(f"({zexpr(c, RENV)})" for c in mine) or "true"      # no check at all: refinement is never stopped by this store
+            out.append(f"Definition gen_rar_capacity_ok_{kind}_{d} (sel zeros : Z) : bool := {term}.")
+        other = [c for c in checks if not any(a in ast.unparse(c) for a in ({"t": "data.p_times", "x": "data.p_omega"}[d] for d in RAR_DIMS[kind]))]
+        if other:
+            raise Untranslatable(f"{kind}: a capacity test on a store the generator does not have")
     pr = ast.unparse(one(assigns(f, "proceed"), "proceed"))
     if pr != "jnp.all(jnp.array(check_list))" or ast.unparse(one(returns(f), "return")) != "proceed":
         raise Untranslatable("proceed is not the conjunction of check_list")
